@@ -371,6 +371,10 @@ func (db *RockDB) SRem(ts int64, key []byte, args ...[]byte) (int64, error) {
 	if err != nil {
 		return 0, err
 	}
+	if keyInfo.IsNotExistOrExpired() {
+		// an expired collection is absent: its dead members are neither reported nor counted
+		return 0, nil
+	}
 	table := keyInfo.Table
 	rk := keyInfo.VerKey
 	oldh := keyInfo.OldHeader
